@@ -68,7 +68,7 @@ func vh_list_int() {
 	}
 	data, err := Marshal(info, src)
 	want := refCollection(p, ref)
-	vAssert(err == nil && refBytesEq(data, want), "C12/list/int32-slice/bytes")
+	vAssert(err == nil && refBytesSame(data, want), "C12/list/int32-slice/bytes")
 	var back []int32
 	ok := Unmarshal(info, data, &back) == nil && len(back) == n
 	for i := 0; ok && i < n; i++ {
@@ -87,7 +87,7 @@ func vh_list_int() {
 	d0, e0 := Marshal(info, nilSlice)
 	vAssert(e0 == nil && d0 == nil, "C02/list/nil-slice-is-null")
 	d1, e1 := Marshal(info, []int32{})
-	vAssert(e1 == nil && d1 != nil && refBytesEq(d1, refCollSize(p, 0)), "C02/list/empty-slice-is-empty-not-null")
+	vAssert(e1 == nil && d1 != nil && refBytesSame(d1, refCollSize(p, 0)), "C02/list/empty-slice-is-empty-not-null")
 	keep := []int32{1}
 	vAssert(Unmarshal(info, nil, &keep) == nil && keep == nil, "C02/list/null-into-slice-is-nil")
 	vObserve("len", len(data))
@@ -115,7 +115,20 @@ func vh_list_nullable() {
 	want := refCollection(p, ref)
 	if p > 2 || !anyNull {
 		data, err := Marshal(info, src)
-		vAssert(err == nil && refBytesEq(data, want), "C12/list/pointer-slice/bytes")
+		vAssert(err == nil && refBytesSame(data, want), "C12/list/pointer-slice/bytes")
+		if err == nil && p > 2 {
+			// what was written decodes to an equal value: nil stays nil, a value stays that value
+			var rb []*int32
+			rok := Unmarshal(info, data, &rb) == nil && len(rb) == n
+			for i := 0; rok && i < n; i++ {
+				if src[i] == nil {
+					rok = rb[i] == nil
+				} else {
+					rok = rb[i] != nil && *rb[i] == *src[i]
+				}
+			}
+			vAssert(rok, "C02/list/pointer-slice/roundtrip")
+		}
 	}
 	if p > 2 {
 		var back []*int32
@@ -182,7 +195,7 @@ func vh_map_text_int() {
 	p := byte(vBound("proto"))
 	info := CollectionType{NativeType: NativeType{proto: p, typ: TypeMap}, Key: NativeType{proto: p, typ: TypeVarchar}, Elem: NativeType{proto: p, typ: TypeInt}}
 	n := vChoose("n", vBound("N")+1)
-	k1, k2 := vString("k1", 1), vString("k2", 1)
+	k1, k2 := vStringN("k1", 1), vStringN("k2", 1)
 	v1, v2 := vI32("v1"), vI32("v2")
 	src := map[string]int32{}
 	if n >= 1 {
@@ -207,7 +220,7 @@ func vh_map_text_int() {
 		wantA = append(append(refCollSize(p, 2), e1...), e2...)
 		wantB = append(append(refCollSize(p, 2), e2...), e1...)
 	}
-	vAssert(err == nil && (refBytesEq(data, wantA) || refBytesEq(data, wantB)), "C12/map/string-int32/bytes")
+	vAssert(err == nil && (refBytesSame(data, wantA) || refBytesSame(data, wantB)), "C12/map/string-int32/bytes")
 	var back map[string]int32
 	ok := Unmarshal(info, data, &back) == nil && len(back) == n
 	if n >= 1 {
@@ -259,14 +272,14 @@ func vh_tuple() {
 	want := refFields(ref)
 	// struct source with a typed (nil) pointer field
 	d1, e1 := Marshal(info, vTupleStruct12{A: int(a), B: sp})
-	vAssert(e1 == nil && refBytesEq(d1, want), "C12/tuple/struct/bytes")
+	vAssert(e1 == nil && refBytesSame(d1, want), "C12/tuple/struct/bytes")
 	// []interface{} source: untyped nil is null; a typed nil pointer is null as well
 	var second interface{} = sp
 	if bNull && vBool("untyped_nil") {
 		second = nil
 	}
 	d2, e2 := Marshal(info, []interface{}{a, second})
-	vAssert(e2 == nil && refBytesEq(d2, want), "C12/tuple/interface-slice/bytes")
+	vAssert(e2 == nil && refBytesSame(d2, want), "C12/tuple/interface-slice/bytes")
 	// decode into struct
 	var st vTupleStruct12
 	ok := Unmarshal(info, want, &st) == nil && st.A == int(a)
@@ -311,13 +324,13 @@ func vh_udt() {
 	}
 	want := refFields(ref)
 	d1, e1 := Marshal(info, vUDTStruct12{First: int(a), Second: sp})
-	vAssert(e1 == nil && refBytesEq(d1, want), "C12/udt/tagged-struct/bytes")
+	vAssert(e1 == nil && refBytesSame(d1, want), "C12/udt/tagged-struct/bytes")
 	m := map[string]interface{}{"a": a}
 	if !bNull {
 		m["b"] = s
 	}
 	d2, e2 := Marshal(info, m)
-	vAssert(e2 == nil && refBytesEq(d2, want), "C12/udt/map/bytes")
+	vAssert(e2 == nil && refBytesSame(d2, want), "C12/udt/map/bytes")
 	var st vUDTStruct12
 	ok := Unmarshal(info, want, &st) == nil && st.First == int(a)
 	if bNull {
@@ -357,7 +370,7 @@ func vh_nested() {
 		src[i].A = int(vI32("a"))
 		fields := []refElem{{data: refBE(int64(src[i].A), 4)}, {null: true}}
 		if vBool("has_b") {
-			s := vString("s", 1)
+			s := vStringN("s", 1)
 			src[i].B = &s
 			fields[1] = refElem{data: []byte(s)}
 		}
@@ -365,7 +378,7 @@ func vh_nested() {
 	}
 	want := refCollection(p, ref)
 	data, err := Marshal(linfo, src)
-	vAssert(err == nil && refBytesEq(data, want), "C12/nested/list-of-tuples/bytes")
+	vAssert(err == nil && refBytesSame(data, want), "C12/nested/list-of-tuples/bytes")
 	var back []vTupleStruct12
 	ok := Unmarshal(linfo, want, &back) == nil && len(back) == n
 	for i := 0; ok && i < n; i++ {
@@ -378,7 +391,7 @@ func vh_nested() {
 	// map<text, list<int>> with one entry
 	minfo := CollectionType{NativeType: NativeType{proto: p, typ: TypeMap}, Key: NativeType{proto: p, typ: TypeVarchar},
 		Elem: CollectionType{NativeType: NativeType{proto: p, typ: TypeList}, Elem: NativeType{proto: p, typ: TypeInt}}}
-	k := vString("k", 1)
+	k := vStringN("k", 1)
 	m := vChoose("m", 3)
 	inner := make([]int32, m)
 	iref := make([]refElem, m)
@@ -389,7 +402,7 @@ func vh_nested() {
 	ival := refCollection(p, iref)
 	mwant := append(refCollSize(p, 1), append(append(refCollSize(p, len(k)), []byte(k)...), append(refCollSize(p, len(ival)), ival...)...)...)
 	md, me := Marshal(minfo, map[string][]int32{k: inner})
-	vAssert(me == nil && refBytesEq(md, mwant), "C12/nested/map-of-lists/bytes")
+	vAssert(me == nil && refBytesSame(md, mwant), "C12/nested/map-of-lists/bytes")
 	var mb map[string][]int32
 	ok = Unmarshal(minfo, mwant, &mb) == nil && len(mb) == 1 && len(mb[k]) == m
 	for i := 0; ok && i < m; i++ {
